@@ -467,7 +467,7 @@ def union_safe(t, tbl, em: "Emitter", seen=None) -> bool:
         if hard and any(m[0] == "float" for m in ms):
             return False        # an int offered at the float member is not class-exact: it falls to the other member's packer
         return all(union_safe(m, tbl, em, seen) for m in ms)
-    if t[0] in ("data", "nt", "td"):
+    if t[0] in ("data", "nt", "td", "gdata"):
         if t[1] in seen:
             return True
         seen.add(t[1])
